@@ -23,7 +23,7 @@ def fresh_wt():
     os.makedirs(S, exist_ok=True)
     if not os.path.isdir(WT):
         sh(['git', '-C', '/repo', 'worktree', 'add', '--detach', WT, 'HEAD'])
-    sh('git checkout -q --detach $(git -C /repo rev-parse HEAD) && git checkout -- . && git clean -fdq', cwd=WT)
+    sh('git checkout -- . ; git clean -fdq ; git checkout -q --detach $(git -C /repo rev-parse HEAD) && git checkout -- . && git clean -fdq', cwd=WT)
 
 
 def stable_ok():
